@@ -150,7 +150,7 @@ func genStep(seed uint64, root *gorm.DB) step06 {
 	return step06{desc: "Model(&Tag{})", apply: func(db *gorm.DB) *gorm.DB { return db.Model(&Tag{}) }}
 }
 
-var finishers06 = []string{"Find", "First", "Take", "Count", "Pluck", "Scan", "Update", "Updates", "Delete", "Create", "Save", "CountDirect", "CreateHooked", "SaveHooked"}
+var finishers06 = []string{"Find", "First", "Take", "Count", "Pluck", "Scan", "Update", "Updates", "Delete", "Create", "Save", "CountDirect", "CreateHooked", "SaveHooked", "FindInBatches", "Rows"}
 
 func genFinisher(seed uint64) (string, func(db *gorm.DB) *gorm.DB) {
 	g := newGen(core.NewRand(seed))
@@ -184,6 +184,14 @@ func genFinisher(seed uint64) (string, func(db *gorm.DB) *gorm.DB) {
 			// the handle's own model / table, no Model() in front (the usual total of a paginated list)
 			var n int64
 			return db.Count(&n)
+		case "FindInBatches":
+			return db.FindInBatches(&[]Tag{}, 2, func(tx *gorm.DB, batch int) error { return nil })
+		case "Rows":
+			tx := db.Model(&Tag{})
+			if rows, err := tx.Rows(); err == nil && rows != nil {
+				rows.Close()
+			}
+			return tx
 		case "CreateHooked":
 			return db.Model(&HTag{}).Create(&HTag{C1: l.val.(string), C2: 1})
 		case "SaveHooked":
@@ -294,6 +302,9 @@ func fmtStmt(db *gorm.DB) string {
 	}
 	if db.Statement.SkipHooks {
 		s += " skiphooks"
+	}
+	if _, inTx := db.Statement.ConnPool.(gorm.TxCommitter); inTx {
+		s += " in-transaction"
 	}
 	if db.Error != nil {
 		s += " ERR=" + db.Error.Error()
@@ -429,6 +440,28 @@ func run06(c *core.Ctx) {
 			path = append(path, mk)
 			nodes = append(nodes, &node06{db: db, path: path})
 			c.Inc("handles_derived")
+		case k < 3 && len(chains) > 0:
+			// derive a reusable handle from a chain in progress; the chain itself goes on and is used again.
+			// Only derivations that give the new handle a statement of its own: a plain Session(&Session{})
+			// and a Session{NewDB} handle keep pointing at the chain's statement until their first use (documented: do not go on with the chain value)
+			ch := core.Pick(r, chains)
+			hasModel := false
+			for _, q := range ch.path {
+				// Model(&T{}) is a caller-owned object update finishers write back to: kept out of reusable handles
+				if q.kind == "step" && q.seed%32 == 25 {
+					hasModel = true
+				}
+			}
+			if hasModel {
+				continue
+			}
+			mk := pel{kind: core.Pick(r, []string{"ctx", "begin", "begin", "skiphooks", "session+ctx", "ctxsame"})}
+			db, _, _ := applyPel(mk, ch.db, root)
+			if mk.kind == "begin" {
+				txs = append(txs, db)
+			}
+			nodes = append(nodes, &node06{db: db, path: append(append([]pel(nil), ch.path...), mk)})
+			c.Inc("handles_derived_from_live_chains")
 		case k < 5:
 			// start a chain from a reusable handle
 			n := core.Pick(r, nodes)
